@@ -2684,7 +2684,7 @@ class Circuit(Unitary, StateVectorMap, Collection[Operation]):
             self.check_parameters(params)
             param_index = 0
 
-        new_state = StateVector(in_state)
+        new_state = StateVector(in_state, self.radixes)
 
         for op in self:
             if len(params) != 0:
